@@ -62,6 +62,19 @@ Condense(ts) ==
         last == {k \in (k0 + 1)..Len(ts) : \A j \in (k + 1)..Len(ts) : Body(ts[j]) # Body(ts[k])}
     IN {ts[k] : k \in last} \cup (IF k0 > 0 THEN {ts[k0]} ELSE {})
 
+(* ------- the un-finalized form: a SET of signed tokens that keeps its negations ------- *)
+\* (incremental_expansion(.., finalize=False); what collapsed_restrict_to_data stores as .defaults
+\*  when asked not to finalize).  It is a set, so whoever expands it walks it in SOME order: it has
+\*  a meaning only if it is unambiguous - no body in both polarities (the literal "*" next to the
+\*  clearing "-*" excepted) - and then the meaning is CondApply (Incremental_Laws!OrderLaw: for a
+\*  set without -*, unambiguous <=> every walk order gives one and the same result, CondApply).
+Unambiguous(C) == \A x, y \in C : (Body(x) = Body(y) /\ x # y) => Body(x) = "*"
+RECURSIVE AllOrders(_, _)
+AllOrders(C, S) == IF C = {} THEN {S} ELSE UNION {AllOrders(C \ {t}, PlainStep(S, t)) : t \in C}
+UnfinalizedFor(C, ts, U) == Unambiguous(C) /\ CondensedFor(C, ts, U)
+\* the un-finalized mode is for USE-like streams: a positive literal "*" is outside its domain
+UnfinalizedDomain(ts) == \A k \in DOMAIN ts : ~(~ts[k].neg /\ Body(ts[k]) = "*")
+
 (* ------------------------------ licence incrementals ------------------------------ *)
 LicIncomplete(t) == \/ t.kind = "group" /\ t.name = ""
                     \/ t.kind = "flag" /\ t.neg /\ t.name = ""
